@@ -40,7 +40,7 @@ type c17Step struct {
 
 var c17InFaults = []string{
 	"none", "dup", "skip", "field", "wrong-device", "wrong-direction", "bad-checksum", "bad-length",
-	"lone-block0", "block0-start", "block0-mid", "t4-gap", "short-pause", "ebit-early", "ebit-missing", "none",
+	"lone-block0", "block0-start", "block0-mid", "t4-gap", "short-pause", "ebit-early", "ebit-missing", "paced",
 }
 
 func c17InTotal(env *fw.Env) int64 { return int64(env.Pick(1024, 24000)) }
@@ -228,6 +228,8 @@ func c17InGen(r *rand.Rand, g int64, cfg c17Cfg) (c17InCase, []c17Step) {
 		k = 3 + r.IntN(2)
 	case "lone-block0":
 		k = 1
+	case "paced":
+		k = 8 // 7 gaps of 0.2 x T4 = 1.4 x T4 from the first block to the last
 	}
 	last := 1 + r.IntN(e4.MaxBody)
 	if k == 1 && r.IntN(6) == 0 {
@@ -267,6 +269,18 @@ func c17InGen(r *rand.Rand, g int64, cfg c17Cfg) (c17InCase, []c17Step) {
 	for n, b := range m {
 		n1 := n + 1
 		tag := fmt.Sprintf("M%d", n1)
+		if c.Fault == "paced" {
+			// every block after the first arrives 0.2 x T4 after its predecessor: each gap is within T4, but
+			// the last block arrives more than T4 after the FIRST one (T4 is an inter-block timer)
+			s := valid(b, tag)
+			if n1 > 1 {
+				s.PreGap = c17T4 * 2 / 10 // (the gap premise needs twice the pause to stay below T4/2)
+				s.Tag += fmt.Sprintf("(after %s)", s.PreGap)
+			}
+			steps = append(steps, s)
+
+			continue
+		}
 		if n1 != i {
 			steps = append(steps, valid(b, tag))
 
